@@ -283,5 +283,5 @@ pub async fn run(sc: &Scenario, dir: &str) -> RunReport {
         };
         crate::rng::mix(&[a, x])
     });
-    RunReport { violations, probes, faults: BTreeMap::new(), log_hash: sig, sig_hash: sig, virt_us: 60_000, events: events.len() as u64, conns: 0, panics: Vec::new(), harness_error }
+    RunReport { violations, probes, faults: BTreeMap::new(), log_hash: sig, sig_hash: sig, virt_us: 60_000, events: events.len() as u64, conns: 0, panics: Vec::new(), harness_error, trace_tail: if crate::obs::KEEP_TRACE.load(std::sync::atomic::Ordering::SeqCst) { events.iter().take(400).map(|e| format!("{:?}", e)).collect() } else { Vec::new() } }
 }
